@@ -2235,6 +2235,12 @@ class Interp:
             raise PathEnd()
         env.vars.pop(idxname, None)
         env.vars[f'{idxname}_final'] = k
+        if view is not None:
+            # after the loop the target names hold the last element (if any) unless the body rebinds them
+            tnames = assigned_names([ast.Assign(targets=[s.target], value=ast.Constant(0))])
+            if not (set(tnames) & set(assigned_names(s.body))):
+                if e.branch(n > 0, f'{tag}/ran-at-least-once'):
+                    self.assign(s.target, view.get(n - 1), env)
         self.exec_block(s.orelse, env)
 
     def s_For(self, s, env):
